@@ -398,7 +398,18 @@ fn run_history(cx: &Ctx, c: &Value, dir: &Path, seed: u64) {
                 let cn = uni.conc_of(n).to_string();
                 let ev = json!({"ev":"Add","case":case,"oi":oi + 1,"okey":format!("o{}", oi + 1),"n":n,"tok":tok(&data),"len":data.len(),"rep":rep,"comp":comp,"enc":enc,"st":no_state()});
                 let ma = m.as_mut().unwrap();
-                cx.op_with(ev, || { let r = classify(&ma.add_file_data(&data, &cn, opts)); (r, state_of(ma)) }, |ev, st| ev["st"] = st.clone());
+                let (ares, _) = cx.op_with(ev, || { let r = classify(&ma.add_file_data(&data, &cn, opts)); (r, state_of(ma)) }, |ev, st| ev["st"] = st.clone());
+                if ares == "ok" {
+                    // D-level observation: MutableArchive::read_file of the file just added, inside the session
+                    let ma = m.as_mut().unwrap();
+                    let r = guarded(|| ma.read_file(&cn));
+                    let (res, t) = match &r {
+                        Outcome::Done(Ok(d)) => ("ok".to_string(), tok(d)),
+                        Outcome::Done(e) => (classify(e), "none".to_string()),
+                        _ => ("panic".to_string(), "none".to_string()),
+                    };
+                    cx.trace.ev(json!({"ev":"SRead","case":case,"n":n,"res":res,"tok":t}));
+                }
             }
             "remove" => {
                 let n = gs(o, "n");
